@@ -13,8 +13,9 @@ type HsMsg struct {
 	Type   byte
 	MsgSeq uint16
 	Body   []byte
-	At     int // emission index at which it became complete
-	Copies int // number of times a complete copy was (re)assembled
+	At     int    // emission index at which it became complete
+	Seq    uint64 // global event sequence number of that emission
+	Copies int    // number of times a complete copy was (re)assembled
 }
 
 type hsAsm struct {
@@ -65,7 +66,7 @@ func (c *HsCollector) Feed(em Emission, cidLen int) {
 
 					continue
 				}
-				m := &HsMsg{From: em.Ep, Type: f.Type, MsgSeq: f.MsgSeq, Body: append([]byte(nil), a.body...), At: em.Idx, Copies: 1}
+				m := &HsMsg{From: em.Ep, Type: f.Type, MsgSeq: f.MsgSeq, Body: append([]byte(nil), a.body...), At: em.Idx, Seq: em.Seq, Copies: 1}
 				c.seen[id] = m
 				c.Msgs = append(c.Msgs, m)
 			}
@@ -231,4 +232,17 @@ func ServerKeyExchangeCurve(body []byte, psk bool) (uint16, bool) {
 	c := r.u16()
 
 	return uint16(c), !r.err
+}
+
+// TranscriptForm renders a message the way DTLS feeds it to the handshake hash:
+// as if it had been sent in a single fragment (RFC 6347 4.2.6).
+func (m *HsMsg) TranscriptForm() []byte {
+	h := make([]byte, 12)
+	h[0] = m.Type
+	putU24(h[1:], len(m.Body))
+	putU16(h[4:], int(m.MsgSeq))
+	putU24(h[6:], 0)
+	putU24(h[9:], len(m.Body))
+
+	return append(h, m.Body...)
 }
